@@ -2842,12 +2842,14 @@ class Parameters:
         triggers = {p:self_[p]._autotrigger_value
                     for p in trigger_params if p in param_names}
 
+        # (looked up before the queue is parked: an unknown name must not
+        # cost the events already queued)
+        param_values = self_.values()
+        params = {name: param_values[name] for name in param_names}
         events = self_._events
         watchers = self_._state_watchers
         self_._events  = []
         self_._state_watchers = []
-        param_values = self_.values()
-        params = {name: param_values[name] for name in param_names}
         self_._TRIGGER = True
         try:
             self_.update(dict(params, **triggers))
